@@ -13,10 +13,14 @@ def handle (j : Json) : R (List (String × Json)) := do
   -- a multi-task candidate (`multi`) is evaluated by `eval_multi`, which the model does not predict: its unpruned cost is
   -- taken over from the implementation's own sequential scan (traced), everything else is predicted from the bare tours
   let candsJ ← arrF j "cands"
+  -- work lists evaluated under the heuristic goal (known_edge objective on a footprint): the cost vector has a layer the
+  -- model does not predict; the unpruned pair costs are taken from the implementation's own sequential scan (traced)
+  let fp := (j.getObjVal? "fp").isOk
   let cands : List (Option JobS) ← candsJ.mapM (fun cj =>
-    match cj.getObjVal? "multi" with
-    | .ok _ => pure none
-    | .error _ => do pure (some (← parseJob dims cj)))
+    match cj.getObjVal? "multi", fp with
+    | _, true => pure none
+    | .ok _, _ => pure none
+    | .error _, _ => do pure (some (← parseJob dims cj)))
   let impl ← fld j "impl"
   let order ← listF asNat impl "route_order"
   let implPairs ← listF parseCost impl "pairs"
